@@ -127,6 +127,12 @@ pub fn minichk(toks: &[&str]) -> String {
     let b = analyze(&t_out);
     // line numbers: ascending stays ascending, and nothing new appears
     for n in &b.order { if !a.first_stmt.contains_key(n) { return format!("FAIL line {} of the output is not a line of the input",n); } }
+    // a valid program lists its lines in strictly ascending order (when the input did)
+    let ascending = |o: &Vec<usize>| o.windows(2).all(|w| w[0] < w[1]);
+    if ascending(&a.order) && !ascending(&b.order) {
+        let k = b.order.windows(2).position(|w| w[0] >= w[1]).unwrap_or(0);
+        return format!("FAIL the minified program is not valid: line {} is followed by line {} :: {}",b.order[k],b.order[k+1],brief(&out));
+    }
     if a.stmts.len()!=b.stmts.len() {
         let k = a.stmts.iter().zip(b.stmts.iter()).position(|(x,y)| !same(x,y)).unwrap_or(a.stmts.len().min(b.stmts.len()));
         return format!("FAIL statement count {} -> {}; first difference at statement {}: `{}` vs `{}` :: {}",a.stmts.len(),b.stmts.len(),k,
